@@ -47,3 +47,21 @@ Theorem C09_memtable_last_time_refuted :
     slast (agg_rows (filter (in_range lo hi) (all_chunk_rows [c] mem))) = Some (4, 6).
 Proof. eexists. eexists. exists 0, 9. repeat split. Qed.
 Print Assumptions C09_memtable_last_time_refuted.
+
+(* ---- ORDER BY time DESC (open findings C09-desc-firstlast-rowpath / C09-desc-firstlast-shortcut) ---- *)
+(* row path: positional first / last on rows that arrive newest first. Bucket [5s,10s) of the server witness: x=4 at t=6,
+   x=5 at t=7; `first(x) .. GROUP BY time(5s) ORDER BY time DESC` answers 5 *)
+Theorem C09_desc_rowpath_refuted :
+  exists rows, rows = [(6, Some 4); (7, Some 5)] /\
+    sfirst (agg_rows_desc_current rows) = Some (5, 7) /\ sfirst (agg_rows rows) = Some (4, 6) /\
+    slast (agg_rows_desc_current rows) = Some (4, 6) /\ slast (agg_rows rows) = Some (5, 7).
+Proof. eexists. repeat split. Qed.
+Print Assumptions C09_desc_rowpath_refuted.
+(* shortcut path with GROUP BY tag: file x=7 at t=2, x=0 at t=5; memtable x=1 at t=1;
+   `last(x) .. GROUP BY host ORDER BY time DESC` answers 7 (the server prints it at t=5); the rows say 0 *)
+Theorem C09_desc_shortcut_refuted :
+  exists c mem lo hi, c = mk_chunk [[(2, Some 7); (5, Some 0)]] /\ mem = [(1, Some 1)] /\
+    option_map fst (slast (agg_chunks_desc_current true lo hi [c] mem)) = Some 7 /\
+    option_map fst (slast (agg_rows (filter (in_range lo hi) (all_chunk_rows [c] mem)))) = Some 0.
+Proof. eexists. eexists. exists 0, 8. repeat split. Qed.
+Print Assumptions C09_desc_shortcut_refuted.
